@@ -317,6 +317,10 @@ func factory(e *config.EndpointConfig) (k string, text string) {
 type gen struct {
 	w   *out.Writer
 	uri config.URI
+	// when set, cfgCase records this observation (made by the concurrent stream) instead of
+	// running the configuration itself
+	forced    *observed
+	forcedExt map[string]interface{}
 }
 
 func (g *gen) cfgCase(svc map[string]interface{}, stream string) {
@@ -330,7 +334,12 @@ func (g *gen) cfgCase(svc map[string]interface{}, stream string) {
 		g.malformed(data, stream)
 		return
 	}
-	o := run(data)
+	var o observed
+	if g.forced != nil {
+		o = *g.forced
+	} else {
+		o = run(data)
+	}
 	// tables of the two library functions the model takes as parameters
 	hostSet := map[string]bool{}
 	lowSet := map[string]bool{"no-op": true}
@@ -430,6 +439,9 @@ func (g *gen) cfgCase(svc map[string]interface{}, stream string) {
 	var cfgJS interface{}
 	json.Unmarshal(data, &cfgJS)
 	js := map[string]interface{}{"stream": stream, "config": cfgJS, "config_json": string(data), "clean_host": hostJS, "query_path_readable": fileJS, "observed": o.js}
+	for k, v := range g.forcedExt {
+		js[k] = v
+	}
 	g.w.Count("stream:" + stream)
 	g.w.Count("outcome:" + o.kind)
 	if o.kind == "err" {
@@ -1006,6 +1018,95 @@ func randomParamsCfg(r *rng.R) map[string]interface{} {
 	return svc
 }
 
+// concurrentStream: K different configurations are parsed, initialised and built AT THE SAME
+// TIME (one goroutine each, released together by closing a gate), for a number of rounds.
+// Initialisation must be total and consistent for every configuration whatever else the process
+// is doing, so every observation made this way is compared with the model like any other.
+// Two cases per configuration keep the case indices stable: the most frequent observation, and
+// an observation that deviates from it when there was one (otherwise the same again).
+func (g *gen) concurrentStream(rounds int) {
+	words := []string{"alpha", "bravo", "charlie", "delta", "echo", "foxtrot", "golf", "hotel", "india", "juliett", "kilo", "lima",
+		"mike", "november", "oscar", "papa", "quebec", "romeo", "sierra", "tango", "uniform", "victor", "whiskey", "xray"}
+	const K = 8
+	var cfgs []map[string]interface{}
+	var datas [][]byte
+	for j := 0; j < K; j++ {
+		var eps []map[string]interface{}
+		for e := 0; e < 3; e++ {
+			ps := []string{words[(3*j+e)%len(words)], words[(3*j+e+7)%len(words)], words[(3*j+e+13)%len(words)]}
+			eps = append(eps, epWith(pathOf(fmt.Sprintf("/c%d-%d", j, e), ps),
+				be(pathOf("/x", ps), "http://ok"),
+				be("/y/{"+ps[2]+"}/{resp0_"+ps[0]+"}/{"+ps[1]+"}", "http://ok2"),
+				be("/z/{JWT."+ps[0]+"}/{"+ps[0]+"}", "h:80")))
+		}
+		c := many(eps...)
+		d, err := json.Marshal(c)
+		if err != nil {
+			panic(err)
+		}
+		cfgs = append(cfgs, c)
+		datas = append(datas, d)
+	}
+	type tally struct {
+		count int
+		obs   observed
+	}
+	seen := make([]map[string]*tally, K)
+	for j := range seen {
+		seen[j] = map[string]*tally{}
+	}
+	for r := 0; r < rounds; r++ {
+		gate := make(chan struct{})
+		res := make(chan struct {
+			j int
+			o observed
+		}, K)
+		for j := 0; j < K; j++ {
+			go func(j int) {
+				<-gate
+				res <- struct {
+					j int
+					o observed
+				}{j, run(datas[j])}
+			}(j)
+		}
+		close(gate)
+		for j := 0; j < K; j++ {
+			x := <-res
+			if tl, ok := seen[x.j][x.o.term]; ok {
+				tl.count++
+			} else {
+				seen[x.j][x.o.term] = &tally{1, x.o}
+			}
+		}
+	}
+	for j := 0; j < K; j++ {
+		var terms []string
+		for term := range seen[j] {
+			terms = append(terms, term)
+		}
+		sort.Slice(terms, func(a, b int) bool {
+			ca, cb := seen[j][terms[a]].count, seen[j][terms[b]].count
+			if ca != cb {
+				return ca > cb
+			}
+			return terms[a] < terms[b]
+		})
+		pickT := []string{terms[0], terms[len(terms)-1]}
+		for slot, term := range pickT {
+			o := seen[j][term].obs
+			g.forced = &o
+			g.forcedExt = map[string]interface{}{"concurrent_rounds": rounds, "concurrent_configs": K, "slot": slot,
+				"distinct_observations": len(terms), "times_observed": seen[j][term].count}
+			g.cfgCase(cfgs[j], "concurrent")
+			g.forced, g.forcedExt = nil, nil
+		}
+		if len(terms) > 1 {
+			g.w.Count("concurrent:deviating-observations")
+		}
+	}
+}
+
 func one(ep map[string]interface{}, bs ...map[string]interface{}) map[string]interface{} {
 	var l []interface{}
 	for _, b := range bs {
@@ -1090,6 +1191,8 @@ func main() {
 		one(ep("/a/{id}"), with(be("/g/{id}", "http://ok"), "extra_config", map[string]interface{}{nsGraphQL: map[string]interface{}{"type": "mutation", "query_path": filesDir + "/adir"}})),
 		one(ep("/a/{id}"), with(be("/g/{id}", "http://ok"), "extra_config", map[string]interface{}{nsGraphQL: map[string]interface{}{"type": "query", "query_path": filesDir + "/q.graphql", "variables": map[string]interface{}{"a": "{}", "b": ""}}})),
 		one(ep("/a/{id}"), with(be("/g/{id}", "http://ok"), "extra_config", map[string]interface{}{nsGraphQL: map[string]interface{}{"type": 5.0, "query": "{ q }"}}), with(be("/h", "http://ok"), "extra_config", map[string]interface{}{nsGraphQL: "not an object"})),
+		// a no-op endpoint imposes the no-op encoding/decoder on a backend that names another one
+		one(with(ep("/a"), "output_encoding", "no-op"), with(be("/b", "http://ok"), "encoding", "json")),
 		// async agents: defaults, invalid host, no host at all, dns without host, two backends with a bad combiner, graphql
 		{"version": 3, "host": []interface{}{"http://s"}, "async_agent": []interface{}{map[string]interface{}{"backend": []interface{}{be("/q"), be("q", "h:80")}}}},
 		{"version": 3, "async_agent": []interface{}{map[string]interface{}{"name": "a1", "consumer": map[string]interface{}{"timeout": "3s", "workers": 4}, "connection": map[string]interface{}{"health_interval": "100ms"}, "backend": []interface{}{be("/q", "h h")}}}},
@@ -1161,6 +1264,13 @@ func main() {
 			g.cfgCase(one(with(ep("/a"), "output_encoding", e), bs...), "exhaustive:encodings")
 			g.cfgCase(with(one(ep("/a"), bs...), "output_encoding", e), "exhaustive:encodings")
 		}
+	}
+	// (d') a no-op endpoint (own or inherited output encoding) with ONE backend that names an encoding
+	for _, e := range encodings {
+		for _, coll := range []bool{false, true} {
+			g.cfgCase(one(with(ep("/a"), "output_encoding", "no-op"), with(be("/b", "http://ok"), "encoding", e, "is_collection", coll)), "exhaustive:noop-backend-encoding")
+		}
+		g.cfgCase(with(one(ep("/a"), with(be("/b", "http://ok"), "encoding", e)), "output_encoding", "no-op"), "exhaustive:noop-backend-encoding")
 	}
 	// (e) durations and counts
 	for _, d1 := range durations {
@@ -1323,6 +1433,13 @@ func main() {
 		}
 	}
 
+	// ---- 6. concurrent initialisation (last: its case indices never shift the others) ----
+	cr := 150
+	if thorough {
+		cr = 1000
+	}
+	g.concurrentStream(cr)
+
 	g.w.Meta["compared"] = "outcome class (ok / error / panic) of Parse; per endpoint: method, timeout, concurrent_calls, input_headers, outcome class of DefaultFactory.New; per async agent: consumer timeout, workers, health interval, outcome class of the pipe built by AgentStarter.Start; per backend (endpoints' and agents'): hosts and url keys (as multisets), method, url_pattern, decoder, timeout, concurrent_calls, input_headers"
-	g.w.Close("corpus of past failures; exhaustive small scope (GraphQL variable values over {,},a up to length 3 (thorough 4); endpoint path x backend pattern x disable_rest over the path pool (quick: a seed-dependent half); host pool x sanitiser switch x position; output encodings x 0..3 backends; durations x durations x counts; versions -1..5; async agents: host pool x sanitiser switch x position, consumer timeout x service timeout x workers x health interval; GraphQL options query_path {empty, readable file, missing file, directory, missing directory} x type x method x variables); scanners re-validated against the package's compiled regular expressions / textproto / x/text on the pools and on random strings; path params x input_query_strings x input_headers x backend placeholders over a b q z; two endpoints in every order; structured random configurations (40% from mostly-valid pools, 20% with backend placeholders drawn from the endpoint's path params / query strings / headers / other endpoints' params / fresh names, 30% any strings, 10% with ill-typed extra_config values); malformed JSON. A third of the random configurations carry 1..2 async agents (pipes built through the real AgentStarter.Start with the default factory); plugin / tls / client_tls / modifier-plugin sections are sprinkled over the random stream. nontrivial = rejected, or has a placeholder, or has an extra_config section", true)
+	g.w.Close("corpus of past failures; exhaustive small scope (GraphQL variable values over {,},a up to length 3 (thorough 4); endpoint path x backend pattern x disable_rest over the path pool (quick: a seed-dependent half); host pool x sanitiser switch x position; output encodings x 0..3 backends; durations x durations x counts; versions -1..5; async agents: host pool x sanitiser switch x position, consumer timeout x service timeout x workers x health interval; GraphQL options query_path {empty, readable file, missing file, directory, missing directory} x type x method x variables); scanners re-validated against the package's compiled regular expressions / textproto / x/text on the pools and on random strings; path params x input_query_strings x input_headers x backend placeholders over a b q z; two endpoints in every order; structured random configurations (40% from mostly-valid pools, 20% with backend placeholders drawn from the endpoint's path params / query strings / headers / other endpoints' params / fresh names, 30% any strings, 10% with ill-typed extra_config values); malformed JSON; 8 placeholder-rich configurations parsed, initialised and built concurrently (150 rounds, thorough 1000; the most frequent and a deviating observation of each are compared with the model). A third of the random configurations carry 1..2 async agents (pipes built through the real AgentStarter.Start with the default factory); plugin / tls / client_tls / modifier-plugin sections are sprinkled over the random stream. nontrivial = rejected, or has a placeholder, or has an extra_config section", true)
 }
